@@ -17,12 +17,16 @@ import (
 	"net/url"
 	"os"
 	"path/filepath"
+	"sort"
 	"strings"
 	"sync/atomic"
 
 	ocispec "github.com/opencontainers/image-spec/specs-go/v1"
 	"oras.land/oras-go/v2/content"
+	"oras.land/oras-go/v2/content/memory"
 	"oras.land/oras-go/v2/content/oci"
+	"oras.land/oras-go/v2/errdef"
+	"oras.land/oras-go/v2/registry"
 	"oras.land/oras-go/v2/registry/remote"
 )
 
@@ -471,6 +475,65 @@ func runC15(seed int64, tier string, sc *Script) map[string]any {
 		}
 		sc.Op(strings.Join(got, ","), "pg ocitags tags=%s last=%s", strings.Join(tags, ","), l)
 		evals++
+	}
+	// registry.Referrers over stores that are no ReferrerLister (memory, OCI layout): an image
+	// manifest's artifact type is its artifactType field, and its config media type only when
+	// that field is empty
+	sc.Case("local-referrers")
+	sc.NonTrivial()
+	for _, storeKind := range []string{"memory", "oci"} {
+		var st content.ReadOnlyGraphStorage
+		var pusher content.Pusher
+		if storeKind == "memory" {
+			m := memory.New()
+			st, pusher = m, m
+		} else {
+			dir, _ := os.MkdirTemp("", "verif-c15-oci-")
+			defer os.RemoveAll(dir)
+			o, err := oci.New(dir)
+			if err != nil {
+				panic(err)
+			}
+			st, pusher = o, o
+		}
+		push := func(mt string, b []byte) ocispec.Descriptor {
+			d := content.NewDescriptorFromBytes(mt, b)
+			if err := pusher.Push(ctx, d, bytes.NewReader(b)); err != nil && !errors.Is(err, errdef.ErrAlreadyExists) {
+				panic(err)
+			}
+			return d
+		}
+		emptyCfg := push(ocispec.MediaTypeEmptyJSON, []byte("{}"))
+		typedCfg := push("application/vnd.verif.cfgtype", []byte(`{"c":1}`))
+		subj := push(ocispec.MediaTypeImageManifest, []byte(fmt.Sprintf(`{"schemaVersion":2,"mediaType":%q,"config":{"mediaType":%q,"digest":%q,"size":2},"layers":[]}`, ocispec.MediaTypeImageManifest, emptyCfg.MediaType, emptyCfg.Digest)))
+		mk := func(id, at string, cfg ocispec.Descriptor) {
+			push(ocispec.MediaTypeImageManifest, []byte(fmt.Sprintf(`{"schemaVersion":2,"mediaType":%q,"artifactType":%q,"config":{"mediaType":%q,"digest":%q,"size":%d},"layers":[],"subject":{"mediaType":%q,"digest":%q,"size":%d},"annotations":{"id":%q}}`,
+				ocispec.MediaTypeImageManifest, at, cfg.MediaType, cfg.Digest, cfg.Size, subj.MediaType, subj.Digest, subj.Size, id)))
+		}
+		mk("both", "application/vnd.verif.at", emptyCfg)       // artifactType and the empty config: the usual 1.1 artifact
+		mk("both-typed", "application/vnd.verif.at", typedCfg) // artifactType and a config type of its own
+		mk("cfg-only", "", typedCfg)                           // no artifactType: the config media type stands in
+		for _, filter := range []string{"", "application/vnd.verif.at", "application/vnd.verif.cfgtype", ocispec.MediaTypeEmptyJSON} {
+			rs, err := registry.Referrers(ctx, st, subj, filter)
+			var items []string
+			for _, r := range rs {
+				items = append(items, r.Annotations["id"]+"="+r.ArtifactType)
+			}
+			sort.Strings(items)
+			ans := strings.Join(items, ",")
+			if ans == "" {
+				ans = "-"
+			}
+			if err != nil {
+				ans = "err"
+			}
+			f := filter
+			if f == "" {
+				f = "-"
+			}
+			sc.Op(ans, "pg localreferrers store=%s filter=%s", storeKind, f)
+			evals++
+		}
 	}
 	// a listing answered with an error status and a huge body (a proxy's HTML page, a
 	// megabyte of errors): no more than the bound for error bodies is read
